@@ -4,6 +4,8 @@ import ShVerif.Model.C13
   Sections: UTF-8 (decode/encode), the decode loop `runes`, the two Quote loops, the `$'…'`
   escape reader `fmtEsc`, the lexer on Quote's output shapes.
 -/
+set_option linter.unusedSimpArgs false
+
 namespace ShVerif.C13
 
 /-! ## Bytes -/
@@ -734,6 +736,585 @@ theorem Clean.fragment {q : Bytes} (h : Clean q) : inFragment q = true ∧ valid
       by_cases hr : r = runeError
       · right; intro hl; exact this ⟨hr, hl⟩
       · left; exact hr
+
+
+/-! ## `fmtEsc`: fuel and unfolding -/
+
+theorem readDigits_len : ∀ (k : Nat) (hex : Bool) (s : Bytes), (readDigits k hex s).2.length ≤ s.length := by
+  intro k
+  induction k with
+  | zero => intro hex s; simp [readDigits]
+  | succ k ih =>
+    intro hex s
+    cases s with
+    | nil => simp [readDigits]
+    | cons c rest =>
+      simp only [readDigits]
+      split
+      · have := ih hex rest
+        simp only [List.length_cons]
+        generalize readDigits k hex rest = dr at this
+        obtain ⟨d, r⟩ := dr
+        simp at this ⊢; omega
+      · simp
+
+theorem fmtEscape_len (e : UInt8) (rest : Bytes) :
+    (fmtEscape e rest).2.length ≤ rest.length + 1 := by
+  have l3 := readDigits_len 3 false (e :: rest)
+  have l2 := fun k => readDigits_len k true rest
+  simp only [List.length_cons] at l3
+  unfold fmtEscape
+  split
+  · simp
+  · split
+    · exact l3
+    · split
+      · dsimp only
+        have l2' := l2 (if e = 117 then 4 else if e = 85 then 8 else 2)
+        generalize readDigits (if e = 117 then 4 else if e = 85 then 8 else 2) true rest = dr at l2' ⊢
+        split
+        · simp
+        · split
+          · exact Nat.le_succ_of_le l2'
+          · exact Nat.le_succ_of_le l2'
+      · simp
+
+theorem fmtStep_len (c : UInt8) (rest : Bytes) : (fmtStep c rest).2.length ≤ rest.length := by
+  unfold fmtStep
+  split
+  · split
+    · simp
+    · exact fmtEscape_len _ _
+  · simp
+
+theorem fmtEscF_fuel2 : ∀ (n m : Nat) (s : Bytes), s.length ≤ n → s.length ≤ m →
+    fmtEscF n s = fmtEscF m s := by
+  intro n
+  induction n with
+  | zero => intro m s h _; cases s with
+    | nil => cases m <;> rfl
+    | cons a t => simp at h
+  | succ n ih =>
+    intro m s h hm
+    cases s with
+    | nil => cases m <;> rfl
+    | cons c rest =>
+      cases m with
+      | zero => simp at hm
+      | succ m =>
+        have := fmtStep_len c rest
+        simp only [List.length_cons] at h hm
+        simp only [fmtEscF]
+        rw [ih m _ (by omega) (by omega)]
+
+theorem fmtEsc_nil : fmtEsc [] = [] := rfl
+
+theorem fmtEsc_cons (c : UInt8) (rest : Bytes) :
+    fmtEsc (c :: rest) = (fmtStep c rest).1 ++ fmtEsc (fmtStep c rest).2 := by
+  have := fmtStep_len c rest
+  unfold fmtEsc
+  simp only [List.length_cons, fmtEscF]
+  rw [fmtEscF_fuel2 rest.length _ _ (by omega) (Nat.le_refl _)]
+
+/-- `e` is a self-delimiting piece of `$'…'` text: wherever it stands, `formatInto` turns it into
+    `out`, and the lexer's scan for the closing quote passes over it. -/
+structure Closed (e out : Bytes) : Prop where
+  fmt : ∀ x, fmtEsc (e ++ x) = out ++ fmtEsc x
+  scan : ∀ x, scanDollarSgl (e ++ x) = (scanDollarSgl x).map fun vr => (e ++ vr.1, vr.2)
+
+theorem Closed.nil : Closed [] [] :=
+  ⟨fun x => by simp, fun x => by simp only [List.nil_append]; cases scanDollarSgl x <;> rfl⟩
+
+theorem Closed.append {e1 o1 e2 o2 : Bytes} (h1 : Closed e1 o1) (h2 : Closed e2 o2) :
+    Closed (e1 ++ e2) (o1 ++ o2) := by
+  constructor
+  · intro x; rw [List.append_assoc, h1.fmt, h2.fmt, List.append_assoc]
+  · intro x; rw [List.append_assoc, h1.scan, h2.scan]
+    cases scanDollarSgl x <;> simp [Option.map]
+
+theorem Closed.plain {c : UInt8} (h1 : c ≠ 0x5c) (h2 : c ≠ 0x27) : Closed [c] [c] := by
+  constructor
+  · intro x
+    rw [List.singleton_append, fmtEsc_cons]
+    simp [fmtStep, h1]
+  · intro x
+    rw [List.singleton_append, scanDollarSgl.eq_def]
+    simp only [h1, h2, ↓reduceIte]
+    cases scanDollarSgl x <;> rfl
+
+theorem Closed.plainList : ∀ (e : Bytes), (∀ c ∈ e, c ≠ 0x5c ∧ c ≠ 0x27) → Closed e e := by
+  intro e
+  induction e with
+  | nil => intro _; exact Closed.nil
+  | cons c e ih =>
+    intro h
+    have hc := h c (List.mem_cons_self ..)
+    exact Closed.append (Closed.plain hc.1 hc.2) (ih fun c' m => h c' (List.mem_cons_of_mem _ m))
+
+/-- An escape `\ tail` that `fmtStep` consumes entirely. -/
+theorem Closed.esc {d : UInt8} {tail out : Bytes}
+    (hf : ∀ x, fmtStep 0x5c (d :: (tail ++ x)) = (out, x))
+    (ht : ∀ c ∈ tail, c ≠ 0x5c ∧ c ≠ 0x27) : Closed (0x5c :: d :: tail) out := by
+  constructor
+  · intro x
+    rw [List.cons_append, fmtEsc_cons, List.cons_append, hf]
+  · intro x
+    have := (Closed.plainList tail ht).scan x
+    have e1 : ((0x5c : UInt8) = 0x27) = False := by decide
+    rw [List.cons_append, List.cons_append, scanDollarSgl]
+    simp only [e1, ↓reduceIte, this]
+    cases scanDollarSgl x <;> rfl
+
+
+/-! ## The pieces written by the `$'…'` loop are self-delimiting -/
+
+theorem hexDigit_facts : ∀ n : Fin 16,
+    isHexByte (hexDigitByte n.val) = true ∧ hexValByte (hexDigitByte n.val) = n.val ∧
+    hexDigitByte n.val ≠ 0x5c ∧ hexDigitByte n.val ≠ 0x27 ∧ (hexDigitByte n.val).toNat < 0x80 ∧
+    (hexDigitByte n.val).toNat ≠ 0 ∧ (hexDigitByte n.val).toNat ≠ 0x0a ∧
+    (hexDigitByte n.val).toNat ≠ 0x0d := by decide
+
+theorem hexDigit_facts' (n : Nat) (h : n < 16) :
+    isHexByte (hexDigitByte n) = true ∧ hexValByte (hexDigitByte n) = n ∧
+    hexDigitByte n ≠ 0x5c ∧ hexDigitByte n ≠ 0x27 ∧ (hexDigitByte n).toNat < 0x80 ∧
+    (hexDigitByte n).toNat ≠ 0 ∧ (hexDigitByte n).toNat ≠ 0x0a ∧
+    (hexDigitByte n).toNat ≠ 0x0d := hexDigit_facts ⟨n, h⟩
+
+theorem readDigits_hex : ∀ (ds x : Bytes), (∀ d ∈ ds, isHexByte d = true) →
+    readDigits ds.length true (ds ++ x) = (ds, x) := by
+  intro ds
+  induction ds with
+  | nil => intro x _; simp [readDigits]
+  | cons d ds ih =>
+    intro x h
+    have hd := h d (List.mem_cons_self ..)
+    have := ih x (fun d' m => h d' (List.mem_cons_of_mem _ m))
+    simp only [List.length_cons, List.cons_append, readDigits, hd, Bool.and_self, Bool.or_true,
+      ↓reduceIte, this]
+
+theorem simpleEscape_x : simpleEscape 0x78 = none ∧ simpleEscape 0x75 = none ∧
+    simpleEscape 0x55 = none ∧ simpleEscape 0x27 = some 0x27 ∧ simpleEscape 0x5c = some 0x5c := by
+  decide
+
+theorem fmtEscape_hex2 (v : Nat) (hv : v < 256) (x : Bytes) :
+    fmtEscape 0x78 (hex2 v ++ x) = ([UInt8.ofNat v], x) := by
+  have f1 := hexDigit_facts' (v / 16 % 16) (by omega)
+  have f2 := hexDigit_facts' (v % 16) (by omega)
+  have hr := readDigits_hex (hex2 v) x (by
+    intro d m; simp only [hex2, List.mem_cons, List.not_mem_nil, or_false] at m
+    rcases m with rfl | rfl
+    · exact f1.1
+    · exact f2.1)
+  have hval : hexValue (hex2 v) = v := by
+    simp only [hexValue, hex2, List.foldl, f1.2.1, f2.2.1]; omega
+  have hne : hex2 v ≠ [] := by simp [hex2]
+  have e1 : ¬ ((48 : Nat) ≤ (0x78 : UInt8).toNat ∧ (0x78 : UInt8).toNat ≤ 55) := by decide
+  have e2 : ((0x78 : UInt8) = 0x78 ∨ (0x78 : UInt8) = 0x75 ∨ (0x78 : UInt8) = 0x55) := Or.inl rfl
+  have e3 : ¬ ((0x78 : UInt8) = 0x75) := by decide
+  have e4 : ¬ ((0x78 : UInt8) = 0x55) := by decide
+  have hl : (hex2 v).length = 2 := rfl
+  rw [hl] at hr
+  simp only [fmtEscape, simpleEscape_x.1, e1, e2, e3, e4, ↓reduceIte, hr, hne, hval, true_or, or_true, false_or, or_false]
+
+theorem fmtEscape_hex4 (v : Nat) (hv : v < 65536) (x : Bytes) :
+    fmtEscape 0x75 (hex4 v ++ x) = (encodeRune v, x) := by
+  have f1 := hexDigit_facts' (v / 4096 % 16) (by omega)
+  have f2 := hexDigit_facts' (v / 256 % 16) (by omega)
+  have f3 := hexDigit_facts' (v / 16 % 16) (by omega)
+  have f4 := hexDigit_facts' (v % 16) (by omega)
+  have hr := readDigits_hex (hex4 v) x (by
+    intro d m; simp only [hex4, List.mem_cons, List.not_mem_nil, or_false] at m
+    rcases m with rfl | rfl | rfl | rfl
+    · exact f1.1
+    · exact f2.1
+    · exact f3.1
+    · exact f4.1)
+  have hval : hexValue (hex4 v) = v := by
+    simp only [hexValue, hex4, List.foldl, f1.2.1, f2.2.1, f3.2.1, f4.2.1]; omega
+  have hne : hex4 v ≠ [] := by simp [hex4]
+  have e1 : ¬ ((48 : Nat) ≤ (0x75 : UInt8).toNat ∧ (0x75 : UInt8).toNat ≤ 55) := by decide
+  have e2 : ((0x75 : UInt8) = 0x78 ∨ (0x75 : UInt8) = 0x75 ∨ (0x75 : UInt8) = 0x55) :=
+    Or.inr (Or.inl rfl)
+  have e3 : ¬ ((0x75 : UInt8) = 0x78) := by decide
+  have hl : (hex4 v).length = 4 := rfl
+  rw [hl] at hr
+  simp only [fmtEscape, simpleEscape_x.2.1, e1, e2, e3, ↓reduceIte, hr, hne, hval, true_or, or_true, false_or, or_false]
+
+theorem fmtEscape_hex8 (v : Nat) (hv : v < 4294967296) (x : Bytes) :
+    fmtEscape 0x55 (hex8 v ++ x) = (encodeRune v, x) := by
+  have f1 := hexDigit_facts' (v / 268435456 % 16) (by omega)
+  have f2 := hexDigit_facts' (v / 16777216 % 16) (by omega)
+  have f3 := hexDigit_facts' (v / 1048576 % 16) (by omega)
+  have f4 := hexDigit_facts' (v / 65536 % 16) (by omega)
+  have f5 := hexDigit_facts' (v / 4096 % 16) (by omega)
+  have f6 := hexDigit_facts' (v / 256 % 16) (by omega)
+  have f7 := hexDigit_facts' (v / 16 % 16) (by omega)
+  have f8 := hexDigit_facts' (v % 16) (by omega)
+  have hr := readDigits_hex (hex8 v) x (by
+    intro d m; simp only [hex8, List.mem_cons, List.not_mem_nil, or_false] at m
+    rcases m with rfl | rfl | rfl | rfl | rfl | rfl | rfl | rfl
+    · exact f1.1
+    · exact f2.1
+    · exact f3.1
+    · exact f4.1
+    · exact f5.1
+    · exact f6.1
+    · exact f7.1
+    · exact f8.1)
+  have hval : hexValue (hex8 v) = v := by
+    simp only [hexValue, hex8, List.foldl, f1.2.1, f2.2.1, f3.2.1, f4.2.1, f5.2.1, f6.2.1, f7.2.1,
+      f8.2.1]; omega
+  have hne : hex8 v ≠ [] := by simp [hex8]
+  have e1 : ¬ ((48 : Nat) ≤ (0x55 : UInt8).toNat ∧ (0x55 : UInt8).toNat ≤ 55) := by decide
+  have e2 : ((0x55 : UInt8) = 0x78 ∨ (0x55 : UInt8) = 0x75 ∨ (0x55 : UInt8) = 0x55) :=
+    Or.inr (Or.inr rfl)
+  have e3 : ¬ ((0x55 : UInt8) = 0x78) := by decide
+  have e4 : ¬ ((0x55 : UInt8) = 0x75) := by decide
+  have hl : (hex8 v).length = 8 := rfl
+  rw [hl] at hr
+  simp only [fmtEscape, simpleEscape_x.2.2.1, e1, e2, e3, e4, ↓reduceIte, hr, hne, hval, true_or, or_true, false_or, or_false]
+
+
+theorem ctlLetter_spec {r : Nat} {c : UInt8} (h : ctlLetter r = some c) :
+    r < 0x80 ∧ r ≠ 0 ∧ simpleEscape c = some (UInt8.ofNat r) ∧ c ≠ 0x5c ∧ c ≠ 0x27 ∧
+      c.toNat < 0x80 ∧ c.toNat ≠ 0 ∧ c.toNat ≠ 0x0a ∧ c.toNat ≠ 0x0d := by
+  unfold ctlLetter at h
+  repeat' (split at h)
+  all_goals first | (cases h; subst_vars; decide) | cases h
+
+theorem clean_ascii : ∀ (e : Bytes),
+    (∀ b ∈ e, b.toNat < 0x80 ∧ b.toNat ≠ 0 ∧ b.toNat ≠ 0x0a ∧ b.toNat ≠ 0x0d) → Clean e := by
+  intro e
+  induction e with
+  | nil => intro _; exact .nil
+  | cons b e ih =>
+    intro h
+    obtain ⟨a1, a2, a3, a4⟩ := h b (List.mem_cons_self ..)
+    exact Clean.byte a1 a2 a3 a4 (ih fun b' m => h b' (List.mem_cons_of_mem _ m))
+
+theorem tok_ascii {t : Tok} (h : TokOK t) (hr : t.r < 0x80) : ∃ b : UInt8, t.raw = [b] ∧ b.toNat = t.r := by
+  rcases h with ⟨h1, _⟩ | ⟨hv, _⟩
+  · rw [h1] at hr; unfold runeError at hr; omega
+  · exact valid_ascii hv hr
+
+theorem clean_valid {p : Bytes} {r : Nat} (hv : ValidEnc p r) (h0 : r ≠ 0) (h1 : r ≠ 0x0a)
+    (h2 : r ≠ 0x0d) : Clean p := by
+  have := Clean.cons hv h0 h1 h2 .nil
+  simpa using this
+
+theorem print_not_ctl {r : Nat} (hp : isPrint r = true) : r ≠ 0 ∧ r ≠ 0x0a ∧ r ≠ 0x0d ∧ r ≠ 0x09 := by
+  by_cases h : r < 0x80
+  · have := isPrint_ascii' h hp; omega
+  · omega
+
+/-- Every successful iteration of the `$'…'` loop writes, possibly after the re-quoting `'$'`, a
+    self-delimiting piece that `formatInto` turns back into the bytes of the rune. -/
+theorem piece_closed {l : Lang} {last : Bool} {t : Tok} {p : Bytes} {nxt : Bool}
+    (hok : TokOK t) (hp : piece l last t = .ok (p, nxt)) :
+    ∃ e, (p = e ∨ p = [0x27, 0x24, 0x27] ++ e) ∧ Closed e t.raw ∧ Clean e := by
+  have hs := piece_spec l last t
+  rw [hp] at hs
+  generalize hres : (Except.ok (p, nxt) : Except ErrKind (Bytes × Bool)) = res at hs
+  cases hs with
+  | bsq c =>
+    cases hres
+    obtain ⟨b, hb, hbr⟩ := tok_ascii hok (by omega)
+    have henc : encodeRune t.r = [b] := by
+      have : ValidEnc [b] t.r := Or.inl ⟨b, rfl, by omega, hbr.symm⟩
+      exact encode_valid this
+    have hb' : b = 0x27 ∨ b = 0x5c := by
+      rcases c with c | c
+      · left; apply UInt8.toNat_inj.mp; rw [hbr, c]; rfl
+      · right; apply UInt8.toNat_inj.mp; rw [hbr, c]; rfl
+    refine ⟨[0x5c, b], Or.inl (by rw [henc]), ?_, ?_⟩
+    · rw [hb]
+      refine Closed.esc (tail := []) ?_ (by simp)
+      intro x
+      rcases hb' with rfl | rfl
+      · simp [fmtStep, fmtEscape, simpleEscape_x.2.2.2.1]
+      · simp [fmtStep, fmtEscape, simpleEscape_x.2.2.2.2]
+    · apply clean_ascii
+      intro b' m
+      simp only [List.mem_cons, List.not_mem_nil, or_false] at m
+      rcases m with rfl | rfl
+      · decide
+      · rcases hb' with rfl | rfl <;> decide
+  | printable c1 c2 c3 =>
+    cases hres
+    have hv : ValidEnc t.raw t.r := by
+      rcases hok with ⟨h1, _⟩ | ⟨hv, _⟩
+      · exact absurd h1 c3
+      · exact hv
+    have henc := encode_valid hv
+    obtain ⟨n0, n1, n2, _⟩ := print_not_ctl c2
+    refine ⟨t.raw, ?_, ?_, clean_valid hv n0 n1 n2⟩
+    · rw [henc]; by_cases hq : (last && isHexRune t.r) = true
+      · right; simp [hq]
+      · left; simp [hq]
+    · apply Closed.plainList
+      intro c m
+      constructor
+      · intro e; subst e; exact valid_bytes_not hv 0x5c (by decide) (by intro e; exact c1 (Or.inr e)) m
+      · intro e; subst e; exact valid_bytes_not hv 0x27 (by decide) (by intro e; exact c1 (Or.inl e)) m
+  | ctl c c1 c2 =>
+    cases hres
+    obtain ⟨a1, a2, a3, a4, a5, a6, a7, a8, a9⟩ := ctlLetter_spec c2
+    obtain ⟨b, hb, hbr⟩ := tok_ascii hok a1
+    have hbo : UInt8.ofNat t.r = b := by rw [← hbr]; exact ofNat_toNat b
+    refine ⟨[0x5c, c], Or.inl rfl, ?_, ?_⟩
+    · rw [hb]
+      refine Closed.esc (tail := []) ?_ (by simp)
+      intro x
+      simp [fmtStep, fmtEscape, a3, hbo]
+    · apply clean_ascii
+      intro b' m
+      simp only [List.mem_cons, List.not_mem_nil, or_false] at m
+      rcases m with rfl | rfl
+      · decide
+      · exact ⟨a6, a7, a8, a9⟩
+  | hexByte c1 c2 c3 c4 =>
+    cases hres
+    have hraw : ∃ b : UInt8, t.raw = [b] := by
+      rcases c4 with c4 | ⟨c4, c5⟩
+      · obtain ⟨b, hb, _⟩ := tok_ascii hok c4; exact ⟨b, hb⟩
+      · rcases hok with ⟨_, _, b, hb, _⟩ | ⟨hv, hsz⟩
+        · exact ⟨b, hb⟩
+        · have := valid_len1 hv (by omega); rw [c4] at this; unfold runeError at this; omega
+    obtain ⟨b, hb⟩ := hraw
+    have hlt := toNat_lt b
+    have f1 := hexDigit_facts' (b.toNat / 16 % 16) (by omega)
+    have f2 := hexDigit_facts' (b.toNat % 16) (by omega)
+    refine ⟨[0x5c, 0x78] ++ hex2 b.toNat, Or.inl (by rw [hb]; rfl), ?_, ?_⟩
+    · rw [hb]
+      refine Closed.esc (d := 0x78) (tail := hex2 b.toNat) ?_ ?_
+      · intro x
+        simp only [fmtStep, ↓reduceIte, fmtEscape_hex2 b.toNat hlt x, ofNat_toNat]
+      · intro c m
+        simp only [hex2, List.mem_cons, List.not_mem_nil, or_false] at m
+        rcases m with rfl | rfl
+        · exact ⟨f1.2.2.1, f1.2.2.2.1⟩
+        · exact ⟨f2.2.2.1, f2.2.2.2.1⟩
+    · apply clean_ascii
+      intro b' m
+      simp only [hex2, List.cons_append, List.nil_append, List.mem_cons, List.not_mem_nil,
+        or_false] at m
+      rcases m with rfl | rfl | rfl | rfl
+      · decide
+      · decide
+      · exact f1.2.2.2.2
+      · exact f2.2.2.2.2
+  | range c => cases hres
+  | mksh c1 c2 c3 => cases hres
+  | u4 c1 c2 c3 c4 =>
+    cases hres
+    have hv : ValidEnc t.raw t.r := by
+      rcases hok with ⟨h1, h2, _⟩ | ⟨hv, _⟩
+      · exact absurd (Or.inr ⟨h1, h2⟩) c2
+      · exact hv
+    have henc := encode_valid hv
+    have f1 := hexDigit_facts' (t.r / 4096 % 16) (by omega)
+    have f2 := hexDigit_facts' (t.r / 256 % 16) (by omega)
+    have f3 := hexDigit_facts' (t.r / 16 % 16) (by omega)
+    have f4 := hexDigit_facts' (t.r % 16) (by omega)
+    refine ⟨[0x5c, 0x75] ++ hex4 t.r, Or.inl rfl, ?_, ?_⟩
+    · refine Closed.esc (d := 0x75) (tail := hex4 t.r) ?_ ?_
+      · intro x
+        simp only [fmtStep, ↓reduceIte, fmtEscape_hex4 t.r c4 x, henc]
+      · intro c m
+        simp only [hex4, List.mem_cons, List.not_mem_nil, or_false] at m
+        rcases m with rfl | rfl | rfl | rfl
+        · exact ⟨f1.2.2.1, f1.2.2.2.1⟩
+        · exact ⟨f2.2.2.1, f2.2.2.2.1⟩
+        · exact ⟨f3.2.2.1, f3.2.2.2.1⟩
+        · exact ⟨f4.2.2.1, f4.2.2.2.1⟩
+    · apply clean_ascii
+      intro b' m
+      simp only [hex4, List.cons_append, List.nil_append, List.mem_cons, List.not_mem_nil,
+        or_false] at m
+      rcases m with rfl | rfl | rfl | rfl | rfl | rfl
+      · decide
+      · decide
+      · exact f1.2.2.2.2
+      · exact f2.2.2.2.2
+      · exact f3.2.2.2.2
+      · exact f4.2.2.2.2
+  | u8 c1 c2 c3 c4 =>
+    cases hres
+    have hm := tok_le_maxRune hok
+    unfold maxRune at hm c2
+    have hv : ValidEnc t.raw t.r := by
+      rcases hok with ⟨h1, h2, _⟩ | ⟨hv, _⟩
+      · rw [h1] at c4; unfold runeError at c4; omega
+      · exact hv
+    have henc := encode_valid hv
+    have f1 := hexDigit_facts' (t.r / 268435456 % 16) (by omega)
+    have f2 := hexDigit_facts' (t.r / 16777216 % 16) (by omega)
+    have f3 := hexDigit_facts' (t.r / 1048576 % 16) (by omega)
+    have f4 := hexDigit_facts' (t.r / 65536 % 16) (by omega)
+    have f5 := hexDigit_facts' (t.r / 4096 % 16) (by omega)
+    have f6 := hexDigit_facts' (t.r / 256 % 16) (by omega)
+    have f7 := hexDigit_facts' (t.r / 16 % 16) (by omega)
+    have f8 := hexDigit_facts' (t.r % 16) (by omega)
+    refine ⟨[0x5c, 0x55] ++ hex8 t.r, Or.inl rfl, ?_, ?_⟩
+    · refine Closed.esc (d := 0x55) (tail := hex8 t.r) ?_ ?_
+      · intro x
+        simp only [fmtStep, ↓reduceIte, fmtEscape_hex8 t.r (by omega) x, henc]
+      · intro c m
+        simp only [hex8, List.mem_cons, List.not_mem_nil, or_false] at m
+        rcases m with rfl | rfl | rfl | rfl | rfl | rfl | rfl | rfl
+        · exact ⟨f1.2.2.1, f1.2.2.2.1⟩
+        · exact ⟨f2.2.2.1, f2.2.2.2.1⟩
+        · exact ⟨f3.2.2.1, f3.2.2.2.1⟩
+        · exact ⟨f4.2.2.1, f4.2.2.2.1⟩
+        · exact ⟨f5.2.2.1, f5.2.2.2.1⟩
+        · exact ⟨f6.2.2.1, f6.2.2.2.1⟩
+        · exact ⟨f7.2.2.1, f7.2.2.2.1⟩
+        · exact ⟨f8.2.2.1, f8.2.2.2.1⟩
+    · apply clean_ascii
+      intro b' m
+      simp only [hex8, List.cons_append, List.nil_append, List.mem_cons, List.not_mem_nil,
+        or_false] at m
+      rcases m with rfl | rfl | rfl | rfl | rfl | rfl | rfl | rfl | rfl | rfl
+      · decide
+      · decide
+      · exact f1.2.2.2.2
+      · exact f2.2.2.2.2
+      · exact f3.2.2.2.2
+      · exact f4.2.2.2.2
+      · exact f5.2.2.2.2
+      · exact f6.2.2.2.2
+      · exact f7.2.2.2.2
+      · exact f8.2.2.2.2
+
+
+/-! ## The lexer on `$'…'` words -/
+
+theorem cutNul_id : ∀ (s : Bytes), (0 : UInt8) ∉ s → cutNul s = s := by
+  intro s
+  induction s with
+  | nil => intro _; rfl
+  | cons c s ih =>
+    intro h
+    have hc : c ≠ 0 := fun e => h (by simp [e])
+    simp only [cutNul, hc, ↓reduceIte]
+    rw [ih (fun m => h (List.mem_cons_of_mem _ m))]
+
+theorem lexF_nil (l : Lang) (n : Nat) (cur : Word) (ws : List Word) :
+    lexF l (n + 1) [] cur ws = .ok (finish ws cur) := rfl
+
+theorem lexF_dollar (l : Lang) (hl : dollSglOK l = true) (n : Nat) (pre out rest : Bytes)
+    (cur : Word) (ws : List Word) (hc : Closed pre out) :
+    lexF l (n + 1) (0x24 :: 0x27 :: (pre ++ 0x27 :: rest)) cur ws =
+      lexF l n rest (cur ++ [.sgl true pre]) ws := by
+  have hs := hc.scan (0x27 :: rest)
+  have e0 : scanDollarSgl (0x27 :: rest) = some ([], rest) := by
+    rw [scanDollarSgl.eq_def]; simp
+  rw [e0] at hs
+  simp only [Option.map, List.append_nil] at hs
+  have d1 : ¬ ((0x24 : UInt8) = 0x20 ∨ (0x24 : UInt8) = 0x09) := by decide
+  have d2 : ¬ ((0x24 : UInt8) = 0x23) := by decide
+  have d3 : ¬ ((0x24 : UInt8) = 0x27) := by decide
+  have d4 : ¬ ((0x24 : UInt8) = 0x22) := by decide
+  simp only [lexF, d1, d2, d3, d4, false_and, ↓reduceIte, hl, and_self, hs]
+
+theorem finish_assoc (ws : List Word) (cur : Word) (p : Part) (parts : List Part) :
+    finish ws ((cur ++ [p]) ++ parts) = finish ws (cur ++ p :: parts) := by
+  simp
+
+theorem dollar_lex (l : Lang) (hl : dollSglOK l = true) :
+    ∀ (ts : List Tok) (offs : Nat) (last : Bool) (body pre out : Bytes) (cur : Word)
+      (ws : List Word) (n : Nat),
+    (∀ t ∈ ts, TokOK t ∧ t.r ≠ 0) → dollarBody l ts offs last = .ok body → Closed pre out →
+    (0 : UInt8) ∉ out → ts.length + 2 ≤ n →
+    ∃ parts, lexF l n (0x24 :: 0x27 :: (pre ++ body ++ [0x27])) cur ws =
+        .ok (finish ws (cur ++ parts)) ∧
+      parts ≠ [] ∧ (∀ p ∈ parts, ∃ v, p = Part.sgl true v) ∧
+      expandParts false parts = .ok (out ++ ts.flatMap Tok.raw) := by
+  intro ts
+  induction ts with
+  | nil =>
+    intro offs last body pre out cur ws n _ hb hc hz hn
+    simp only [dollarBody] at hb
+    cases hb
+    obtain ⟨m, rfl⟩ : ∃ m, n = m + 2 := ⟨n - 2, by simp at hn; omega⟩
+    refine ⟨[.sgl true pre], ?_, by simp, ?_, ?_⟩
+    · rw [List.append_nil, lexF_dollar l hl (m + 1) pre out [] cur ws hc, lexF_nil]
+    · intro p hp; simp at hp; exact ⟨pre, hp⟩
+    · have hf := hc.fmt []
+      rw [List.append_nil, fmtEsc_nil, List.append_nil] at hf
+      simp only [expandParts, expandPart, hf, cutNul_id out hz, List.flatMap_nil, List.append_nil]
+  | cons t ts ih =>
+    intro offs last body pre out cur ws n hok hb hc hz hn
+    obtain ⟨hokt, h0t⟩ := hok t (List.mem_cons_self ..)
+    have hok' : ∀ t' ∈ ts, TokOK t' ∧ t'.r ≠ 0 := fun t' m => hok t' (List.mem_cons_of_mem _ m)
+    simp only [dollarBody] at hb
+    cases hp : piece l last t with
+    | error k => rw [hp] at hb; simp only at hb; cases hb
+    | ok r =>
+      obtain ⟨p, nxt⟩ := r
+      rw [hp] at hb; simp only at hb
+      cases hd : dollarBody l ts (offs + t.size) nxt with
+      | error e' => rw [hd] at hb; simp only at hb; cases hb
+      | ok rest =>
+        rw [hd] at hb; simp only at hb; cases hb
+        obtain ⟨e, hpe, hce, _⟩ := piece_closed hokt hp
+        have hzraw : (0 : UInt8) ∉ t.raw := fun m => h0t ((tok_zero_iff hokt).mpr m)
+        simp only [List.length_cons] at hn
+        rcases hpe with rfl | rfl
+        · -- the piece continues the current $'…' part
+          have hz' : (0 : UInt8) ∉ out ++ t.raw := by
+            simp only [List.mem_append, not_or]; exact ⟨hz, hzraw⟩
+          obtain ⟨parts, h1, h2, h3, h4⟩ :=
+            ih (offs + t.size) nxt rest (pre ++ p) (out ++ t.raw) cur ws n hok' hd
+              (Closed.append hc hce) hz' (by omega)
+          refine ⟨parts, ?_, h2, h3, ?_⟩
+          · rw [← h1]; simp only [List.append_assoc]
+          · rw [h4]; simp only [List.flatMap_cons, List.append_assoc]
+        · -- re-quoting: the current part is closed, `e` starts a new one
+          obtain ⟨m, rfl⟩ : ∃ m, n = m + 1 := ⟨n - 1, by omega⟩
+          obtain ⟨parts, h1, h2, h3, h4⟩ :=
+            ih (offs + t.size) nxt rest e t.raw (cur ++ [.sgl true pre]) ws m hok' hd hce hzraw
+              (by omega)
+          refine ⟨.sgl true pre :: parts, ?_, by simp, ?_, ?_⟩
+          · have : (0x24 : UInt8) :: 0x27 :: (pre ++ ([0x27, 0x24, 0x27] ++ e ++ rest) ++ [0x27]) =
+                0x24 :: 0x27 :: (pre ++ 0x27 :: (0x24 :: 0x27 :: (e ++ rest ++ [0x27]))) := by
+              simp
+            rw [this, lexF_dollar l hl m pre out _ cur ws hc, h1, finish_assoc]
+          · intro q hq
+            rcases List.mem_cons.mp hq with rfl | hq
+            · exact ⟨pre, rfl⟩
+            · exact h3 q hq
+          · have hf := hc.fmt []
+            rw [List.append_nil, fmtEsc_nil, List.append_nil] at hf
+            simp only [expandParts, expandPart, hf, cutNul_id out hz, h4, List.flatMap_cons,
+              List.append_assoc]
+
+/-- Everything the `$'…'` loop writes stays inside the lexer fragment. -/
+theorem dollar_clean (l : Lang) : ∀ (ts : List Tok) (offs : Nat) (last : Bool) (body : Bytes),
+    (∀ t ∈ ts, TokOK t) → dollarBody l ts offs last = .ok body → Clean body := by
+  intro ts
+  induction ts with
+  | nil => intro offs last body _ hb; simp only [dollarBody] at hb; cases hb; exact .nil
+  | cons t ts ih =>
+    intro offs last body hok hb
+    simp only [dollarBody] at hb
+    cases hp : piece l last t with
+    | error k => rw [hp] at hb; simp only at hb; cases hb
+    | ok r =>
+      obtain ⟨p, nxt⟩ := r
+      rw [hp] at hb; simp only at hb
+      cases hd : dollarBody l ts (offs + t.size) nxt with
+      | error e' => rw [hd] at hb; simp only at hb; cases hb
+      | ok rest =>
+        rw [hd] at hb; simp only at hb; cases hb
+        obtain ⟨e, hpe, _, hcl⟩ := piece_closed (hok t (List.mem_cons_self ..)) hp
+        have hrest := ih _ _ _ (fun t' m => hok t' (List.mem_cons_of_mem _ m)) hd
+        rcases hpe with rfl | rfl
+        · exact Clean.append hcl hrest
+        · have : Clean ([0x27, 0x24, 0x27] : Bytes) := clean_ascii _ (by
+            intro b m; simp only [List.mem_cons, List.not_mem_nil, or_false] at m
+            rcases m with rfl | rfl | rfl <;> decide)
+          exact Clean.append (Clean.append this hcl) hrest
 
 
 end ShVerif.C13
